@@ -3,12 +3,14 @@
 import json, os, re, shutil, sys
 V = os.path.dirname(os.path.dirname(os.path.abspath(__file__)))
 pid = sys.argv[1]
-root = "/tmp/neu_%s_out" % pid
+rnd = sys.argv[2] if len(sys.argv) > 2 else ""
+off = 3 if rnd else 0
+root = "/tmp/neu%s_%s_out" % (rnd, pid)
 for k in sorted(os.listdir(root)):
     src = os.path.join(root, k)
     if not os.path.isdir(src) or not os.path.exists(os.path.join(src, "patch.diff")):
         continue
-    dst = os.path.join(V, "neutral", "%s_h%s" % (pid, k))
+    dst = os.path.join(V, "neutral", "%s_h%d" % (pid, int(k) + off))
     os.makedirs(dst, exist_ok=True)
     for f in ("patch.diff", "README.md"):
         if os.path.exists(os.path.join(src, f)):
@@ -16,6 +18,6 @@ for k in sorted(os.listdir(root)):
     readme = open(os.path.join(dst, "README.md")).read() if os.path.exists(os.path.join(dst, "README.md")) else ""
     files = re.findall(r"^\+\+\+ b/(\S+)", open(os.path.join(dst, "patch.diff")).read(), re.M)
     json.dump({"property": pid, "touches": files, "description": readme[:1500], "expect": "quiet",
-               "source": "independent sub-agent given only the property text and a scratch worktree (neutral round)"},
+               "source": "independent sub-agent given only the property text and a scratch worktree (neutral round %s)" % (rnd or "1") + ""},
               open(os.path.join(dst, "meta.json"), "w"), indent=1)
     print(os.path.basename(dst), files)
